@@ -595,3 +595,38 @@ Proof.
   { apply in_rev. rewrite <- H. apply in_map. exact He. }
   specialize (Q Hin). destruct e; exact Q.
 Qed.
+
+(* lite_plan is core_plan_on whenever the positions agree: not inverted, or passthru, or the fast path runs *)
+Lemma core_plan_on_lite cfg M needles s fast :
+  needle_matcher cfg M needles s ->
+  fast = true \/ c_invert cfg = false \/ c_passthru cfg = true ->
+  core_plan_on fast cfg (m_is_match M) s = lite_plan needles (c_invert cfg) (c_passthru cfg) (lt_byte (c_lt cfg)) s.
+Proof.
+  intros Hn Hc. rewrite <- (core_plan_lite cfg M needles s Hn). unfold core_plan_on, core_plan.
+  destruct Hc as [->|[H|H]].
+  - reflexivity.
+  - rewrite H. now rewrite Bool.andb_false_r.
+  - rewrite H. f_equal.
+    generalize (line_ranges (lt_byte (c_lt cfg)) s 0 0 []). intro rs.
+    induction rs as [|[[a b] l] rs IH]; [reflexivity|]. cbn [plan_calls]. rewrite IH.
+    now rewrite !Bool.andb_false_r.
+Qed.
+
+Theorem lite_sim_proof :
+  forall (cfg : config) (M : matcher) (needles : list bytes) (r : nat -> reply),
+    (forall i, r i <> Fail) ->
+    c_before cfg = 0 -> c_after cfg = 0 -> c_stop_on_nonmatch cfg = false ->
+    forall s : bytes, find_spec cfg M s -> needle_matcher cfg M needles s ->
+    fastb cfg M = true \/ c_invert cfg = false \/ c_passthru cfg = true ->
+    result14 (slice_by_line_run cfg M r s) =
+    Some (rev (snd (slice_run (sink_of r) (mode14 (c_binary cfg)) default_buffer_capacity s
+                      (lite_plan needles (c_invert cfg) (c_passthru cfg) (lt_byte (c_lt cfg)) s) (length s) (0, [])))).
+Proof.
+  intros cfg M needles r Hr Hb Ha Hs s Hfs Hn Hc.
+  rewrite <- (core_plan_on_lite cfg M needles s (fastb cfg M) Hn Hc). apply slice_sim_proof; assumption.
+Qed.
+
+(* Core::roll without context = lite_roll: the whole buffer is consumed *)
+Lemma lite_roll_eq_core_proof cfg c buf : c_before cfg = 0 -> c_after cfg = 0 ->
+  fst (roll cfg c buf) = fst (lite_roll tt buf).
+Proof. intros Hb Ha. unfold roll, lite_roll, max_context. rewrite Hb, Ha. reflexivity. Qed.
